@@ -19,6 +19,27 @@ fn viol(out: &mut Out, seen: &mut std::collections::BTreeMap<String, u64>, class
     if *n <= 2 { out.violation(i, what, d); }
 }
 
+/// Known finding C01-lossy-members: set members, hash field names and sorted-set members are stored as
+/// lossy-UTF-8 Strings, so two different non-UTF-8 byte strings collapse and come back altered.  The
+/// generated sequences only use valid UTF-8 members; this probe exercises the class directly
+/// (class = a member / field that is not valid UTF-8) on a fresh executor.
+fn lossy_probe(out: &mut Out, i: u64) {
+    use redis_sim::redis::{Command, RespValue, SDS};
+    let mut im = Impl::new();
+    let (m1, m2): (Vec<u8>, Vec<u8>) = (vec![0xff, b'a'], vec![0xfe, b'a']);
+    let s = |b: &Vec<u8>| SDS::new(b.clone());
+    let mut seen = Vec::new();
+    let _ = im.exec(&Command::SAdd("s".into(), vec![s(&m1)]));
+    if let Ok(RespValue::Integer(1)) = im.exec(&Command::SIsMember("s".into(), s(&m2))) { seen.push("SADD s \\xffa; SISMEMBER s \\xfea -> 1 (Redis: 0)"); }
+    if let Ok(RespValue::Array(Some(v))) = im.exec(&Command::SMembers("s".into())) { if v != vec![RespValue::BulkString(Some(m1.clone()))] { seen.push("SMEMBERS does not return the member bytes that were added"); } }
+    let _ = im.exec(&Command::HSet("h".into(), vec![(s(&m1), SDS::new(b"v".to_vec()))]));
+    if let Ok(RespValue::BulkString(Some(_))) = im.exec(&Command::HGet("h".into(), s(&m2))) { seen.push("HSET h \\xffa v; HGET h \\xfea -> v (Redis: nil)"); }
+    let _ = im.exec(&Command::ZAdd { key: "z".into(), pairs: vec![(1.0, s(&m1))], nx: false, xx: false, gt: false, lt: false, ch: false });
+    if let Ok(RespValue::BulkString(Some(_))) = im.exec(&Command::ZScore("z".into(), s(&m2))) { seen.push("ZADD z 1 \\xffa; ZSCORE z \\xfea -> 1 (Redis: nil)"); }
+    out.impl_checks += 1;
+    if !seen.is_empty() { out.known("C01-lossy-members", i, json!({"observed": seen})); }
+}
+
 fn main() {
     let a: Vec<String> = std::env::args().collect();
     let args = &Args::parse(&a[1..]);
@@ -93,12 +114,14 @@ fn main() {
             g.deadlines = last.iter().filter(|e| e.2 >= 0).map(|e| g.now + e.2 as u64).collect();
             g.lens = last.iter().filter_map(|e| match &e.1 { Dump::L(v) => Some(v.len() as i64), Dump::S(v) => Some(v.len() as i64), Dump::Z(v) => Some(v.len() as i64), _ => None }).collect();
         }
+        if i % 8 == 0 { lossy_probe(&mut out, i); }
         let term = clist(terms.iter(), |t| t.clone());
         out.case(i, term.clone(), changes >= 3 && fams.len() >= 3, &term);
         out.sample(json!({"steps": trace}));
         if args.only.is_some() {
             println!("case {} ({} steps):", i, trace.len());
             for (n, t) in trace.iter().enumerate() { println!("  step {}: {}", n, t); }
+            explain_with_model(&args.out, HEADER, &term);
         }
     }
     out.finish(args.seed);
